@@ -140,7 +140,16 @@ def attach_log(obj, log, seen=None):
 # recipes
 
 STR_KEYS = ['a', 'b', 'c', 'k', 'key', '', '0', '1', 'with space', 'é']
-PATH_ONLY_KEYS = [0, 1, 7, ('t', 1), 'dot.ted', None, '*', '**', 2.5, True]
+NT1 = collections.namedtuple('NT1', ['only'])
+
+
+class TupleKey(tuple):
+    """a tuple subclass used as a mapping key"""
+
+
+# (keys that are instances of container SUBCLASSES - namedtuples with two fields and with one, a tuple subclass, a frozenset - are
+# segments like any other hashable)
+PATH_ONLY_KEYS = [0, 1, 7, ('t', 1), 'dot.ted', None, '*', '**', 2.5, True, NT(3, 4), NT1(7), TupleKey(('tk', 2)), frozenset(['fs'])]
 ATTRS = ['a', 'b', 'c', 'x', 'y', '_priv']
 LEAVES = [1, 0, -5, 2.5, 'leaf', '', None, True, b'by']
 
